@@ -1,7 +1,7 @@
 (** The binary cursor (what ttlvReader sees in a byte string): size bound, totality of the
     generic-tree decoder on every byte string. *)
 From Coq Require Import ZArith List Bool Lia.
-From KV Require Import Base BaseProofs Wire Cursor CursorProofs ReaderProofs.
+From KV Require Import Base BaseProofs Wire WireProofs Cursor CursorProofs ReaderProofs.
 Import ListNotations.
 Open Scope Z_scope.
 
@@ -56,4 +56,210 @@ Proof.
   specialize (Hv (c_tag c) c ltac:(lia)).
   assert (H2 : (2 * csize c <= S (S (length bs)))%nat) by (rewrite Ho; lia).
   specialize (Hv H2). destruct (dec_value _ _ _ _); cbn [safe_res bind] in *; auto.
+Qed.
+
+(** ** The binary cursor law: what ttlvReader sees in the encoder's output mirrors the writer
+    calls one for one ([faithful], Cursor.v) and nothing is marked invalid. *)
+Lemma bin_forest_step f tag ty l value after :
+  0 <= tag < 2 ^ 24 -> 1 <= ty <= 10 -> len value = l -> l < 2 ^ 32 ->
+  bin_width_ok ty l = true ->
+  bytes_ok value = true ->
+  bin_forest (Datatypes.S f) (hdr tag ty l ++ value ++ zeros (pad8 l) ++ after) =
+    let kids := if ty =? T_STRUCT then bin_forest f value else ([], false) in
+    let rest := bin_forest f after in
+    (RE tag ty value (fst kids) (snd kids) :: fst rest, snd rest).
+Proof.
+  intros Htag Hty Hlen Hl Hw Hbv.
+  assert (Hl0 : 0 <= l) by (subst l; apply len_nonneg).
+  pose proof (pad8_range l) as Hp.
+  set (bs := hdr tag ty l ++ value ++ zeros (pad8 l) ++ after).
+  assert (Hlenbs : len bs = 8 + l + pad8 l + len after).
+  { unfold bs. rewrite !len_app, len_hdr. rewrite len_zeros by lia. lia. }
+  assert (Htake4 : take 4 (drop 4 bs) = be 4 l).
+  { unfold bs, hdr. rewrite <- !app_assoc.
+    replace 4 with (len (be 3 tag ++ [ty mod 256])) at 2 by (rewrite len_app, len_be, len_cons, len_nil; reflexivity).
+    rewrite app_assoc. rewrite drop_app_exact.
+    replace 4 with (len (be 4 l)) at 1 by (rewrite len_be; reflexivity). apply take_app_exact. }
+  assert (Hlval : unbe (take 4 (drop 4 bs)) = l).
+  { rewrite Htake4. apply unbe_be_id. change (256 ^ Z.of_nat 4) with (2 ^ 32). lia. }
+  assert (Hty3 : nth 3 bs 0 = ty).
+  { unfold bs, hdr. rewrite be3_shape. cbn [app nth]. apply Z.mod_small. lia. }
+  assert (Htag3 : unbe (take 3 bs) = tag).
+  { unfold bs, hdr. rewrite <- app_assoc.
+    replace 3 with (len (be 3 tag)) by (rewrite len_be; reflexivity). rewrite take_app_exact.
+    apply unbe_be_id. change (256 ^ Z.of_nat 3) with (2 ^ 24). lia. }
+  assert (Hval : take l (drop 8 bs) = value).
+  { unfold bs. replace 8 with (len (hdr tag ty l)) by apply len_hdr. rewrite drop_app_exact.
+    rewrite <- Hlen. apply take_app_exact. }
+  assert (Hrest : drop (8 + l + pad8 l) bs = after).
+  { unfold bs. rewrite !app_assoc.
+    replace (8 + l + pad8 l) with (len ((hdr tag ty l ++ value) ++ zeros (pad8 l)))
+      by (rewrite !len_app, len_hdr; rewrite len_zeros by lia; lia).
+    apply drop_app_exact. }
+  assert (Hhead : bin_head_ok bs = true).
+  { unfold bin_head_ok. rewrite Hlval, Hty3, Hlenbs.
+    destruct (Z.ltb_spec (8 + l + pad8 l + len after) 8); [pose proof (len_nonneg after); lia|].
+    destruct (Z.ltb_spec (8 + l + pad8 l + len after - 8) (l + pad8 l)); [pose proof (len_nonneg after); lia|].
+    destruct (Z.ltb_spec 10 ty); [lia|]. destruct (Z.eqb_spec ty 0); [lia|]. cbn [orb]. exact Hw. }
+  cbn [bin_forest]. fold bs.
+  destruct bs as [|b0 bs'] eqn:Ebs.
+  { exfalso. change (len (@nil Z)) with 0 in Hlenbs. pose proof (len_nonneg after). lia. }
+  rewrite <- Ebs in *. rewrite Hhead. cbn [negb]. rewrite Htag3, Hty3, Hlval, Hval, Hrest. reflexivity.
+Qed.
+
+Lemma to_i32_be4 v : in_i32 v = true -> to_i32 (unbe (be 4 v)) = v.
+Proof.
+  intros H. apply in_i32_range in H. rewrite unbe_be. change (256 ^ Z.of_nat 4) with (2 ^ 32).
+  unfold to_i32. rewrite Z.mod_mod by lia. change (2 ^ 32) with 4294967296 in *. change (2 ^ 31) with 2147483648 in *.
+  destruct (Z_lt_dec v 0).
+  - replace (v mod 4294967296) with (v + 4294967296) by (apply (Z.mod_unique v 4294967296 (-1)); lia).
+    destruct (Z.ltb_spec (v + 4294967296) 2147483648); lia.
+  - rewrite Z.mod_small by lia. destruct (Z.ltb_spec v 2147483648); lia.
+Qed.
+
+Lemma to_i64_be8 v : in_i64 v = true -> to_i64 (unbe (be 8 v)) = v.
+Proof.
+  intros H. apply in_i64_range in H. rewrite unbe_be. change (256 ^ Z.of_nat 8) with (2 ^ 64).
+  unfold to_i64. rewrite Z.mod_mod by lia. change (2 ^ 64) with 18446744073709551616 in *. change (2 ^ 63) with 9223372036854775808 in *.
+  destruct (Z_lt_dec v 0).
+  - replace (v mod 18446744073709551616) with (v + 18446744073709551616) by (apply (Z.mod_unique v 18446744073709551616 (-1)); lia).
+    destruct (Z.ltb_spec (v + 18446744073709551616) 9223372036854775808); lia.
+  - rewrite Z.mod_small by lia. destruct (Z.ltb_spec v 9223372036854775808); lia.
+Qed.
+
+Lemma u32_be4 v : in_u32 v = true -> unbe (be 4 v) = v.
+Proof. intros H. apply in_u32_range in H. apply unbe_be_id. change (256 ^ Z.of_nat 4) with (2 ^ 32). exact H. Qed.
+
+(** bytesToBigInt is the two's complement reading (the independent [sp_signed]) on non-empty byte strings *)
+Lemma bytes_to_big_signed b : bytes_ok b = true -> b <> [] -> bytes_to_big b = sp_signed b.
+Proof.
+  intros Hb Hne. destruct b as [|b0 r]; [contradiction|]. unfold bytes_to_big, sp_signed. rewrite sp_num0.
+  cbn [bytes_ok forallb] in Hb. apply andb_true_iff in Hb. destruct Hb as [H0 Hr]. fold (bytes_ok r) in Hr.
+  unfold byte_ok in H0. apply andb_true_iff in H0. destruct H0 as [Hlo Hhi]. apply Z.leb_le in Hlo. apply Z.ltb_lt in Hhi.
+  pose proof (unbe_bound r Hr) as Hbd. rewrite unbe_cons, len_cons.
+  assert (Hp : 0 < 256 ^ len r) by (apply Z.pow_pos_nonneg; [lia | apply len_nonneg]).
+  replace (256 ^ (1 + len r)) with (256 * 256 ^ len r) by (rewrite Z.pow_add_r by (pose proof (len_nonneg r); lia); reflexivity).
+  replace (256 * 256 ^ len r / 2) with (128 * 256 ^ len r).
+  2:{ replace (256 * 256 ^ len r) with ((128 * 256 ^ len r) * 2) by lia. rewrite Z.div_mul by lia. reflexivity. }
+  destruct (Z.ltb_spec b0 128); destruct (Z.ltb_spec (b0 * 256 ^ len r + unbe r) (128 * 256 ^ len r)); try reflexivity; nia.
+Qed.
+
+Lemma enc_big_nonempty v : enc_big v <> [].
+Proof. destruct (enc_big_decodes v) as (_ & Hpos & _). intros E. rewrite E in Hpos. cbn in Hpos. lia. Qed.
+
+Definition bin_step_ok (i : item) : Prop :=
+  item_ok i = true -> item_small i = true ->
+  forall f after, bytes_ok after = true -> (length (wire_enc i ++ after) <= f)%nat ->
+  exists e, bin_forest (Datatypes.S f) (wire_enc i ++ after) = (e :: fst (bin_forest f after), snd (bin_forest f after))
+            /\ faithful1 bin_fmt i e.
+
+Lemma bin_forest_ok kids :
+  Forall bin_step_ok kids -> forallb item_ok kids = true -> forallb item_small kids = true ->
+  forall f, (length (flat_map wire_enc kids) < f)%nat ->
+  exists es, bin_forest f (flat_map wire_enc kids) = (es, false) /\ faithful bin_fmt kids es.
+Proof.
+  induction 1 as [|k ks Hk _ IH]; intros Hok Hsm f Hf.
+  - destruct f as [|f]; [lia|]. exists []. split; [reflexivity | constructor].
+  - cbn [forallb] in Hok, Hsm. apply andb_true_iff in Hok, Hsm. destruct Hok as [Hok1 Hok2], Hsm as [Hsm1 Hsm2].
+    destruct f as [|f]; [lia|]. cbn [flat_map] in *.
+    assert (Hb : bytes_ok (flat_map wire_enc ks) = true).
+    { apply bytes_ok_flat_map. rewrite Forall_forall. intros x Hx. apply bytes_ok_wire_enc.
+      rewrite forallb_forall in Hok2. apply Hok2, Hx. }
+    destruct (Hk Hok1 Hsm1 f _ Hb ltac:(lia)) as (e & He & Hfe).
+    destruct (IH Hok2 Hsm2 f) as (es & Hes & Hfes).
+    { rewrite app_length in Hf. pose proof (wire_enc_length_pos k). lia. }
+    rewrite He, Hes. cbn [fst snd]. exists (e :: es). split; [reflexivity | constructor; assumption].
+Qed.
+
+Lemma bin_step_all i : bin_step_ok i.
+Proof.
+  induction i as [tag kids IH|tag v|tag v|tag v|tag r v|tag b|tag s|tag s|tag v|tag v|tag r v] using item_ind';
+    intros Hok Hsm f after Hba Hf; cbn [item_ok] in Hok; cbn [wire_enc]; cbv zeta.
+  - (* struct *)
+    apply tag_range in Hok. destruct Hok as [Htag Hk]. cbn [item_small] in Hsm.
+    apply andb_true_iff in Hsm. destruct Hsm as [Hsk Hlen]. apply Z.ltb_lt in Hlen. cbn [wire_enc] in Hf.
+    set (body := flat_map wire_enc kids) in *.
+    assert (E : pad8 (len body) = 0).
+    { apply pad8_of_mult. apply flat_map_len8. rewrite Forall_forall. intros x _. apply wire_enc_len8. }
+    replace ((hdr tag T_STRUCT (len body) ++ body) ++ after)
+      with (hdr tag T_STRUCT (len body) ++ body ++ zeros (pad8 (len body)) ++ after)
+      by (rewrite E, <- !app_assoc; reflexivity).
+    assert (Hbb : bytes_ok body = true).
+    { apply bytes_ok_flat_map. rewrite Forall_forall. intros x Hx. apply bytes_ok_wire_enc.
+      rewrite forallb_forall in Hk. apply Hk, Hx. }
+    rewrite bin_forest_step; try assumption; try reflexivity; [|unfold T_STRUCT; lia].
+    change (T_STRUCT =? T_STRUCT) with true. cbv iota zeta.
+    destruct (bin_forest_ok kids IH Hk Hsk f) as (es & Hes & Hfes).
+    { fold body. rewrite !app_length in Hf. unfold hdr in Hf. rewrite !app_length, !be_length in Hf. cbn [length] in Hf. lia. }
+    fold body in Hes. rewrite Hes. cbn [fst snd]. eexists. split; [reflexivity|]. constructor. exact Hfes.
+  - (* Integer *)
+    apply tag_range in Hok. destruct Hok as [Htag Hv]. change [0; 0; 0; 0] with (zeros (pad8 4)). rewrite <- !app_assoc.
+    rewrite bin_forest_step; try assumption; try reflexivity; try (unfold T_INT; lia); [|apply be_bytes_ok].
+    change (T_INT =? T_STRUCT) with false. cbv iota zeta. cbn [fst snd]. eexists. split; [reflexivity|].
+    constructor. cbn [p_int bin_fmt]. rewrite to_i32_be4 by exact Hv. reflexivity.
+  - (* Long *)
+    apply tag_range in Hok. destruct Hok as [Htag Hv].
+    rewrite <- (app_nil_r (be 8 v)). change (@nil Z) with (zeros (pad8 8)) at 1. rewrite <- !app_assoc.
+    rewrite bin_forest_step; try assumption; try reflexivity; try (unfold T_LONG; lia); [|apply be_bytes_ok].
+    change (T_LONG =? T_STRUCT) with false. cbv iota zeta. cbn [fst snd]. eexists. split; [reflexivity|].
+    constructor. cbn [p_long bin_fmt]. rewrite to_i64_be8 by exact Hv. reflexivity.
+  - (* Big *)
+    apply tag_range' in Hok. cbn [item_small] in Hsm. apply Z.ltb_lt in Hsm.
+    destruct (enc_big_decodes v) as (Hdec & Hpos & Hm8).
+    replace ((hdr tag T_BIG (len (enc_big v)) ++ enc_big v) ++ after)
+      with (hdr tag T_BIG (len (enc_big v)) ++ enc_big v ++ zeros (pad8 (len (enc_big v))) ++ after)
+      by (rewrite pad8_of_mult by exact Hm8; rewrite <- app_assoc; reflexivity).
+    rewrite bin_forest_step; try assumption; try reflexivity; try (unfold T_BIG; lia); [| |apply bytes_ok_enc_big].
+    2:{ unfold bin_width_ok, T_BIG, T_INT, T_ENUM, T_INTV, T_LONG, T_BOOL, T_DATE. cbn [Z.eqb orb]. 
+        destruct (Z.eqb_spec (len (enc_big v)) 0); [lia | reflexivity]. }
+    change (T_BIG =? T_STRUCT) with false. cbv iota zeta. cbn [fst snd]. eexists. split; [reflexivity|].
+    constructor. cbn [p_big bin_fmt]. rewrite bytes_to_big_signed by (try apply bytes_ok_enc_big; apply enc_big_nonempty).
+    rewrite Hdec. reflexivity.
+  - (* Enum *)
+    apply tag_range in Hok. destruct Hok as [Htag Hv]. change [0; 0; 0; 0] with (zeros (pad8 4)). rewrite <- !app_assoc.
+    rewrite bin_forest_step; try assumption; try reflexivity; try (unfold T_ENUM; lia); [|apply be_bytes_ok].
+    change (T_ENUM =? T_STRUCT) with false. cbv iota zeta. cbn [fst snd]. eexists. split; [reflexivity|].
+    constructor. cbn [p_enum bin_fmt]. rewrite u32_be4 by exact Hv. reflexivity.
+  - (* Bool *)
+    apply tag_range' in Hok.
+    rewrite <- (app_nil_r [0; 0; 0; 0; 0; 0; 0; if b then 1 else 0]). change (@nil Z) with (zeros (pad8 8)) at 1. rewrite <- !app_assoc.
+    rewrite bin_forest_step; try assumption; try reflexivity; try (unfold T_BOOL; lia); [|destruct b; reflexivity].
+    change (T_BOOL =? T_STRUCT) with false. cbv iota zeta. cbn [fst snd]. eexists. split; [reflexivity|].
+    constructor. destruct b; reflexivity.
+  - (* Text *)
+    apply tag_range in Hok. destruct Hok as [Htag Hs]. cbn [item_small] in Hsm. apply Z.ltb_lt in Hsm. rewrite <- !app_assoc.
+    rewrite bin_forest_step; try assumption; try reflexivity; try (unfold T_TEXT; lia).
+    change (T_TEXT =? T_STRUCT) with false. cbv iota zeta. cbn [fst snd]. eexists. split; [reflexivity|]. constructor. reflexivity.
+  - (* Bytes *)
+    apply tag_range in Hok. destruct Hok as [Htag Hs]. cbn [item_small] in Hsm. apply Z.ltb_lt in Hsm. rewrite <- !app_assoc.
+    rewrite bin_forest_step; try assumption; try reflexivity; try (unfold T_BYTES; lia).
+    change (T_BYTES =? T_STRUCT) with false. cbv iota zeta. cbn [fst snd]. eexists. split; [reflexivity|]. constructor. reflexivity.
+  - (* Date *)
+    apply tag_range in Hok. destruct Hok as [Htag Hv].
+    rewrite <- (app_nil_r (be 8 v)). change (@nil Z) with (zeros (pad8 8)) at 1. rewrite <- !app_assoc.
+    rewrite bin_forest_step; try assumption; try reflexivity; try (unfold T_DATE; lia); [|apply be_bytes_ok].
+    change (T_DATE =? T_STRUCT) with false. cbv iota zeta. cbn [fst snd]. eexists. split; [reflexivity|].
+    constructor. cbn [p_date bin_fmt]. rewrite to_i64_be8 by exact Hv. reflexivity.
+  - (* Interval *)
+    apply tag_range in Hok. destruct Hok as [Htag Hv]. change [0; 0; 0; 0] with (zeros (pad8 4)). rewrite <- !app_assoc.
+    rewrite bin_forest_step; try assumption; try reflexivity; try (unfold T_INTV; lia); [|apply be_bytes_ok].
+    change (T_INTV =? T_STRUCT) with false. cbv iota zeta. cbn [fst snd]. eexists. split; [reflexivity|].
+    constructor. cbn [p_intv bin_fmt]. rewrite u32_be4 by exact Hv. reflexivity.
+  - (* Mask *)
+    apply tag_range in Hok. destruct Hok as [Htag Hv]. change [0; 0; 0; 0] with (zeros (pad8 4)). rewrite <- !app_assoc.
+    rewrite bin_forest_step; try assumption; try reflexivity; try (unfold T_INT; lia); [|apply be_bytes_ok].
+    change (T_INT =? T_STRUCT) with false. cbv iota zeta. cbn [fst snd]. eexists. split; [reflexivity|].
+    constructor. cbn [p_mask bin_fmt]. rewrite to_i32_be4 by exact Hv. reflexivity.
+Qed.
+
+(** The cursor law for binary TTLV: for every list of writer calls (any sizes and depths), the
+    reader's view of the encoder's bytes is faithful to the calls and no item is invalid. *)
+Theorem bin_faithful l : forallb item_ok l = true -> forallb item_small l = true ->
+  exists forest, bin_cursor (wire_enc_list l) = Ok (forest, false) /\ faithful bin_fmt l forest.
+Proof.
+  intros Hok Hsm. unfold bin_cursor.
+  destruct (bin_forest_ok l) with (f := Datatypes.S (length (wire_enc_list l))) as (es & Hes & Hf); try assumption.
+  - rewrite Forall_forall. intros x _. apply bin_step_all.
+  - unfold wire_enc_list. lia.
+  - unfold wire_enc_list in *. rewrite Hes. cbn [fst snd]. exists es. split; [|exact Hf]. destruct es; reflexivity.
 Qed.
